@@ -29,19 +29,72 @@
 //! observation that is clean under ANY of them.  No reading lets a request whose Request-URI is sips leave
 //! over a transport that does not report itself secure.
 //!
+//! URIs that carry a `;transport=` or `;maddr=` uri parameter: the statement does not mention either.  A `Target`
+//! records what the URI carries (`tparam`, `maddr`); `readings` resolves it into every reading the statement
+//! admits: the parameter is ignored (what the pinned tree does), or it is honoured (RFC 3261 19.1.1 / RFC 3263
+//! 4.1: `transport=` restricts the candidates to the named transport, `maddr=` replaces the host as the
+//! address to contact).  How a honouring stack matches a candidate against the value is not specified either
+//! (exact name; "TLS also answers to tcp", which is what ezk's `matches_transport_param` documents; RFC 3263:
+//! tcp means TLS for sips and TCP for sip), so a honoured value gives TWO candidate sets: the candidates that
+//! match under SOME interpretation (membership) and those that match under EVERY interpretation (what
+//! liveness and the reuse preference may rely on).  No reading lets a sips target leave over a transport that
+//! does not report itself secure: the parameter only ever narrows the table below.
+//!
 //! A request whose first `Transport::send` call was made to fail by the harness (`Observation::send_fault`)
 //! may fail although candidates are eligible; everything that did leave is judged as usual.
 
 use std::net::{IpAddr, SocketAddr};
+
+/// Value class of a `;transport=` uri parameter (compared case-insensitively, RFC 3261 19.1.4)
+#[derive(Clone, Copy, Debug, PartialEq, Eq, Hash)]
+pub enum TParam {
+    Udp,
+    Tcp,
+    Tls,
+    /// a transport nothing in the harness provides (sctp, ws)
+    Other,
+}
 
 #[derive(Clone, Debug)]
 pub struct Target {
     pub sips: bool,
     pub ip: IpAddr,
     pub port: Option<u16>,
+    /// the `;transport=` parameter: on a generated target what the URI carries, on a reading (an element of
+    /// `readings`) `Some` = the reading honours it
+    pub tparam: Option<TParam>,
+    /// the `;maddr=` parameter the URI carries; always `None` on a reading (a reading that honours it has it
+    /// as `ip`)
+    pub maddr: Option<IpAddr>,
 }
 
-/// (port) rule of the statement
+impl Target {
+    /// a URI without `transport=` / `maddr=`
+    pub fn plain(sips: bool, ip: IpAddr, port: Option<u16>) -> Target {
+        Target {
+            sips,
+            ip,
+            port,
+            tparam: None,
+            maddr: None,
+        }
+    }
+}
+
+/// Does a candidate (`stream`: connection / factory, else datagram transport; what it reports as `secure`)
+/// answer to a honoured `transport=` value: (under every interpretation, under some interpretation)
+fn tparam_match(p: TParam, stream: bool, secure: bool, sips: bool) -> (bool, bool) {
+    match (p, stream) {
+        // an insecure datagram transport is UDP; a secure one is UDP underneath but not named so
+        (TParam::Udp, false) => (!secure, true),
+        // TCP is tcp; TLS answers to tcp for a sips URI (RFC 3263 4.1), for a sip URI only by ezk's documented rule
+        (TParam::Tcp, true) => (!secure || sips, true),
+        (TParam::Tls, true) => (secure, secure),
+        _ => (false, false),
+    }
+}
+
+/// (port) rule of the statement; the host is the URI's host (`maddr` is resolved by `readings`)
 pub fn destination(t: &Target) -> SocketAddr {
     let port = match t.port {
         Some(p) => p,
@@ -133,12 +186,18 @@ pub struct Eligible {
     pub conns_idle: Vec<usize>,
     /// eligible factories that would succeed
     pub factories: Vec<usize>,
+    /// the subsets of `dgrams` / `conns_held` / `factories` that are eligible under EVERY interpretation of a
+    /// honoured `transport=` value (equal to them when the reading has none): what liveness and the reuse
+    /// preference are judged with
+    pub sure_dgrams: Vec<usize>,
+    pub sure_conns_held: Vec<usize>,
+    pub sure_factories: Vec<usize>,
 }
 
 impl Eligible {
     /// liveness: the request must succeed
     pub fn must_succeed(&self) -> bool {
-        !self.dgrams.is_empty() || !self.conns_held.is_empty() || !self.factories.is_empty()
+        !self.sure_dgrams.is_empty() || !self.sure_conns_held.is_empty() || !self.sure_factories.is_empty()
     }
     pub fn may_succeed(&self) -> bool {
         self.must_succeed() || !self.conns_idle.is_empty()
@@ -162,23 +221,41 @@ pub fn eligible(cfg: &Config, t: &Target) -> Eligible {
         dest: Some(dest),
         ..Default::default()
     };
+    let named = |stream: bool, secure: bool| match t.tparam {
+        None => (true, true),
+        Some(p) => tparam_match(p, stream, secure, t.sips),
+    };
     for d in &cfg.dgrams {
-        if d.bound_v6 == dest.is_ipv6() && sec_ok(t, d.secure) {
+        let (sure, some) = named(false, d.secure);
+        if d.bound_v6 == dest.is_ipv6() && sec_ok(t, d.secure) && some {
             e.dgrams.push(d.key);
+            if sure {
+                e.sure_dgrams.push(d.key);
+            }
         }
     }
     for c in &cfg.conns {
-        if c.outbound && c.remote == dest && sec_ok(t, c.secure) {
+        let (sure, some) = named(true, c.secure);
+        if c.outbound && c.remote == dest && sec_ok(t, c.secure) && some {
             match c.life {
-                Life::Held => e.conns_held.push(c.key),
+                Life::Held => {
+                    e.conns_held.push(c.key);
+                    if sure {
+                        e.sure_conns_held.push(c.key);
+                    }
+                }
                 Life::Idle => e.conns_idle.push(c.key),
                 Life::Closed => {}
             }
         }
     }
     for f in &cfg.factories {
-        if sec_ok(t, f.secure) && f.connects {
+        let (sure, some) = named(true, f.secure);
+        if sec_ok(t, f.secure) && f.connects && some {
             e.factories.push(f.key);
+            if sure {
+                e.sure_factories.push(f.key);
+            }
         }
     }
     e
@@ -189,6 +266,24 @@ pub fn insecure_candidate_present(cfg: &Config) -> bool {
     cfg.dgrams.iter().any(|d| !d.secure)
         || cfg.conns.iter().any(|c| !c.secure && c.life != Life::Closed)
         || cfg.factories.iter().any(|f| !f.secure)
+}
+
+/// presence of an insecure candidate that would carry the request if the target were sip: instead of sips:
+/// and the reading `t` (with whatever `transport=` it honours) were followed - the candidate a stack that
+/// lets the parameter decide picks (non-triviality rule)
+pub fn insecure_candidate_named(cfg: &Config, t: &Target) -> bool {
+    let twin = Target {
+        sips: false,
+        ..t.clone()
+    };
+    let e = eligible(cfg, &twin);
+    e.dgrams.iter().any(|k| cfg.dgrams.iter().any(|d| d.key == *k && !d.secure))
+        || e
+            .conns_held
+            .iter()
+            .chain(e.conns_idle.iter())
+            .any(|k| cfg.conns.iter().any(|c| c.key == *k && !c.secure))
+        || e.factories.iter().any(|k| cfg.factories.iter().any(|x| x.key == *k && !x.secure))
 }
 
 #[derive(Clone, Debug)]
@@ -289,13 +384,13 @@ pub fn judge(cfg: &Config, t: &Target, pin: Option<&Pin>, obs: &Observation) -> 
     let dest = destination(t);
 
     // the stated preference: never open a connection while a live (held) eligible one exists
-    if !e.conns_held.is_empty() && !obs.connects.is_empty() {
+    if !e.sure_conns_held.is_empty() && !obs.connects.is_empty() {
         f(
             &mut out,
             "c14.reuse/connect-despite-live-connection",
             format!(
                 "eligible live outbound connection(s) {:?} to {} exist but connect was called: {:?}",
-                e.conns_held, dest, obs.connects
+                e.sure_conns_held, dest, obs.connects
             ),
         );
     }
@@ -308,9 +403,9 @@ pub fn judge(cfg: &Config, t: &Target, pin: Option<&Pin>, obs: &Observation) -> 
 
     if !obs.success {
         if e.must_succeed() && !obs.send_fault {
-            let which = if !e.dgrams.is_empty() {
+            let which = if !e.sure_dgrams.is_empty() {
                 "datagram"
-            } else if !e.conns_held.is_empty() {
+            } else if !e.sure_conns_held.is_empty() {
                 "connection"
             } else {
                 "factory"
@@ -320,7 +415,7 @@ pub fn judge(cfg: &Config, t: &Target, pin: Option<&Pin>, obs: &Observation) -> 
                 format!("c14.liveness/failed-although-{which}-eligible"),
                 format!(
                     "request failed although candidates are eligible: datagrams {:?}, connections {:?}, factories {:?}",
-                    e.dgrams, e.conns_held, e.factories
+                    e.sure_dgrams, e.sure_conns_held, e.sure_factories
                 ),
             );
         }
@@ -397,7 +492,7 @@ pub fn judge(cfg: &Config, t: &Target, pin: Option<&Pin>, obs: &Observation) -> 
                     explained = true;
                     dest_finding(&mut out, t, *remote, dest, "new-connection");
                 }
-                if !e.conns_held.is_empty() {
+                if !e.sure_conns_held.is_empty() {
                     explained = true; // reported above as connect-despite-live-connection
                 }
                 if !explained && !e.factories.contains(factory) {
@@ -416,25 +511,40 @@ pub fn judge(cfg: &Config, t: &Target, pin: Option<&Pin>, obs: &Observation) -> 
     out
 }
 
+/// Every way to ignore / honour the `transport=` and `maddr=` parameters `t` carries; the first element
+/// ignores both.
+fn resolve(t: &Target) -> Vec<Target> {
+    let mut v = vec![];
+    for ip in std::iter::once(t.ip).chain(t.maddr) {
+        for tparam in std::iter::once(None).chain(t.tparam.map(Some)) {
+            v.push(Target {
+                sips: t.sips,
+                ip,
+                port: t.port,
+                tparam,
+                maddr: None,
+            });
+        }
+    }
+    v
+}
+
 /// Every reading of "the target" of a request with Request-URI `t` whose topmost Route entry is `first_route`
-/// (see the module comment).  The first element is always the Request-URI reading.
+/// (see the module comment).  The first element is always the Request-URI reading with its `transport=` /
+/// `maddr=` parameters ignored.
 pub fn readings(t: &Target, first_route: Option<&Target>) -> Vec<Target> {
-    let mut v = vec![t.clone()];
+    let mut v = resolve(t);
     if let Some(r) = first_route {
         let sips = t.sips || r.sips;
-        v.push(Target {
-            sips,
-            ip: r.ip,
-            port: r.port,
-        });
+        v.extend(resolve(&Target { sips, ..r.clone() }));
         if r.port.is_none() && sips && !r.sips {
             // a sip: Route entry without port behind a sips Request-URI: the entry's own default port is
             // as good a reading as the sips default (the transport must report itself secure either way)
-            v.push(Target {
+            v.extend(resolve(&Target {
                 sips,
-                ip: r.ip,
                 port: Some(5060),
-            });
+                ..r.clone()
+            }));
         }
     }
     v
@@ -455,7 +565,7 @@ fn reading_to_report(readings: &[Target], results: &[Vec<Finding>], went_to: Opt
 fn tag_reading(mut v: Vec<Finding>, i: usize, r: &Target) -> Vec<Finding> {
     if i > 0 {
         for x in v.iter_mut() {
-            x.msg = format!("{} [judged with the topmost Route entry as next hop: {:?}]", x.msg, r);
+            x.msg = format!("{} [judged with the reading {:?}]", x.msg, r);
         }
     }
     v
